@@ -335,6 +335,10 @@ def yield_children(logger: ConsolePrinter, data: Any,
 
         for key, val in pool:
             tmp_path = build_path + YAMLPath.escape_path_section(key, pathsep)
+            if (pathsep is not PathSeparators.FSLASH
+                    and tmp_path.startswith("/")):
+                # Lest this dot-notated path read as forward-slash notation
+                tmp_path = "\\" + tmp_path
 
             key_anchor_matched = Searches.search_anchor(
                 key, terms, seen_anchors, search_anchors=search_anchors,
@@ -505,6 +509,10 @@ def search_for_paths(logger: ConsolePrinter, processor: EYAMLProcessor,
 
         for key, val in pool:
             tmp_path = build_path + YAMLPath.escape_path_section(key, pathsep)
+            if (pathsep is not PathSeparators.FSLASH
+                    and tmp_path.startswith("/")):
+                # Lest this dot-notated path read as forward-slash notation
+                tmp_path = "\\" + tmp_path
 
             # Search the value anchor to have it on record, in case the key
             # anchor match would otherwise block the value anchor from
